@@ -123,6 +123,45 @@ def cases(rng, quick):
         yield "\n".join(lines) + "\n"
 
 
+def include_call_case(impl, k):
+    """register expressions handed to an included TEMPLATE as keyword values of the call: where the template uses the parameter bare
+    (positional or keyword), the expanded operation carries a transform with exactly the written registers and the written
+    function - like the same argument written directly in a statement (-> message or None)"""
+    import os
+    import shutil
+    import tempfile
+    from fractions import Fraction as F
+    exprs = [("2*q0 + q12/4", {0: 0.5, 12: 3.0}, lambda v: 2 * v[0] + v[12] / 4), ("q12 ** 2", {12: 1.5}, lambda v: v[12] ** 2), ("q3 - q0", {0: 2.0, 3: 0.25}, lambda v: v[3] - v[0]),
+             ("q0", {0: 0.75}, lambda v: v[0]), ("3 * q1 * q2", {1: 0.5, 2: 4.0}, lambda v: 3 * v[1] * v[2]), ("q2 / 8 - 1", {2: 2.0}, lambda v: v[2] / 8 - 1)]
+    (e1, v1, f1), (e2, v2, f2) = exprs[k % len(exprs)], exprs[(k * 5 + 1) % len(exprs)]
+    d = tempfile.mkdtemp(prefix="bbverif.", dir="/var/tmp")
+    try:
+        open(os.path.join(d, "tpl.xbb"), "w").write("name T\nversion 1.0\nZgate({alpha}) | 0\nDgate(0.5, r={beta}) | 1\nSgate(0.25) | 0\n")
+        meas = "".join("MeasureX | %d\n" % m for m in sorted(set(v1) | set(v2)))
+        main = os.path.join(d, "main.xbb")
+        open(main, "w").write('name main\nversion 1.0\ninclude "tpl.xbb"\n%sT(alpha=%s, beta=%s) | [20, 21]\nSgate(%s) | 22\n' % (meas, e1, e2, e1))
+        try:
+            p = impl.load(main) if hasattr(impl, "load") else __import__("blackbird").load(main)
+        except Exception as e:  # noqa: BLE001
+            return "a call of an included template with register expressions as keyword values (alpha=%s, beta=%s) fails: %s: %s" % (e1, e2, type(e).__name__, str(e)[:100])
+        ops = p.operations[-4:]
+        got = [("Zgate", ops[0]["args"][0], e1, v1, f1, 20), ("Dgate r", ops[1]["kwargs"]["r"], e2, v2, f2, 21), ("Sgate (direct statement)", ops[3]["args"][0], e1, v1, f1, 22)]
+        for what, t, e, v, f, mode in got:
+            if not (hasattr(t, "regrefs") and hasattr(t, "func")):
+                return "%s: the register expression %s handed to an included template is delivered as %s (%s), not as a register transform" % (what, e, type(t).__name__, t)
+            if sorted(int(r) for r in t.regrefs) != sorted(v):
+                return "%s: the transform of %s lists registers %s" % (what, e, list(t.regrefs))
+            val = float(t.func(*[v[int(r)] for r in t.regrefs]))
+            want = float(f({a: F(b) for a, b in v.items()}))
+            if abs(val - want) > 1e-12 * max(1.0, abs(want)):
+                return "%s: the transform of %s gives %r at %s, the written formula gives %r" % (what, e, val, v, want)
+        if list(ops[0]["modes"]) != [20] or list(ops[1]["modes"]) != [21]:
+            return "the included template is applied to modes %s / %s" % (ops[0]["modes"], ops[1]["modes"])
+    finally:
+        shutil.rmtree(d, ignore_errors=True)
+    return None
+
+
 def run(tier, seed):
     res = Result(PROP, tier, seed)
     rng = random.Random(seed)
@@ -199,6 +238,16 @@ def run(tier, seed):
                 except Exception as e:  # noqa: BLE001
                     ok = False
                     res.violate("evaluating the transform of %s fails: %s: %s" % (expr, type(e).__name__, str(e)[:100]), {"check": "near-offset", "text": text})
+        for k in range(6):
+            try:
+                msg = include_call_case(impl, k)
+            except Exception as e:  # noqa: BLE001
+                msg = "harness error in include-call case %d: %s: %s" % (k, type(e).__name__, str(e)[:100])
+            res.case("include-call-%d" % k, True, None)
+            res.count("transform-through-include-call")
+            if msg:
+                ok = False
+                res.violate(msg, {"check": "include-call", "k": k})
         res.oblige("correspondence: transforms = model (registers exact, func(listed order) = written formula) in-process and under %d hash seeds" % len(seeds), "correspondence", ok)
         model.close()
     else:
@@ -214,6 +263,10 @@ def run(tier, seed):
 def replay(rep):
     import impl
     inp = rep["input"]
+    if inp.get("check") == "include-call":
+        msg = include_call_case(impl, inp["k"])
+        print(msg)
+        return 1 if msg else 0
     if inp.get("check") == "near-offset":
         for expr, vals, exact in NEAR_OFFSET:
             if expr in inp["text"]:
